@@ -7,6 +7,9 @@ driver for the rotation model (engine `rotate`).  One case = `cfg …`, operatio
 cfg <keep> <cyclePeriod> <fileSize> <flushPeriod> <reuse 0|1> <hsize>,<hsize>…   → ok
         (periods in 1/8 s; resets; one log per header size: the logger has that many logs)
 adv <n> | ctl start|run|stop | reboot                                    → ok
+die start|run|stop <g>                   → ok    the process is killed inside the control after g primitives
+                                                 (counted over all logs in the order the code performs them:
+                                                 loop by loop, log by log), then a new process
 recs <i> - | recs <i> . | recs <i> <size>,<size>…   → ok    what log i's action writes at the next run:
                                                             nothing / write("") / records of these sizes
 trace <i>                                → the primitives log i performed, e.g. `A T1 T2 W W S …`
@@ -55,6 +58,52 @@ def parseBatch (s : String) : Option (Option (List Nat)) :=
   else if s = "." then some (some [])
   else ((s.splitOn ",").mapM String.toNat?).map some
 
+/-- the logger's loops of control `c`, one after the other (each is a loop over the logs): the
+states after each loop.  `Logger.reopen`, `Logger.prepare`, the logs' actions, the flush timer, the
+cycle timer, STOP's `Logger.cycle` and `Logger.close`. -/
+def phases (ms : MSt) (c : Ctl) : List MSt :=
+  let logPh (m : MSt) : List MSt :=
+    let a := m.map St.writeRec
+    let b := MSt.flushTimer a
+    [a, b, MSt.cycleTimer b]
+  match c with
+  | .start =>
+    let a := ms.map fun x => x.reopen x.cfg.keep
+    let b := a.map St.prepareHdr
+    [a, b] ++ logPh b
+  | .run => logPh ms
+  | .stop =>
+    match ms with
+    | [] => []
+    | s :: _ =>
+      if s.status = .stopped then [] else
+      let l := logPh ms
+      let m := l.getLastD ms
+      let m2 := match m with
+        | [] => []
+        | t :: _ => if t.cfg.keep ≠ 0 ∧ t.cfg.reuse then m.map St.cycle else m
+      l ++ [m2, m2.map fun x => x.closeLog]
+
+/-- a kill after `g` primitives of control `c`, counted in the order the code performs them (loop by
+loop, log by log): how many primitives each log had performed -/
+def cuts (ms : MSt) (c : Ctl) (g : Nat) : List Nat :=
+  let rec go (prev : MSt) (phs : List MSt) (g : Nat) (ks : List Nat) : List Nat :=
+    match phs with
+    | [] => ks
+    | ph :: rest =>
+      let ds := (prev.zip ph).map fun (a, b) => b.trace.length - a.trace.length
+      -- spend g over the logs in order
+      let rec spend (ds ks : List Nat) (g : Nat) : List Nat × Nat :=
+        match ds, ks with
+        | d :: dr, k :: kr =>
+          let t := min d g
+          let (r, g') := spend dr kr (g - t)
+          ((k + t) :: r, g')
+        | _, _ => ([], g)
+      let (ks', g') := spend ds ks g
+      go ph rest g' ks'
+  go ms (phases ms c) g (ms.map fun _ => 0)
+
 def step (st : Option MSt) (line : String) : Option MSt × String :=
   match words line, st with
   | ["cfg", k, cp, fsz, fp, ru, hs], _ =>
@@ -77,6 +126,14 @@ def step (st : Option MSt) (line : String) : Option MSt × String :=
     match parseCtl c with
     | some c => (some (s.step (.ctl c)), "ok")
     | none => (st, "bad-op")
+  | ["die", c, g], some s =>
+    match parseCtl c, g.toNat? with
+    | some c, some g =>
+      -- the loops, run one after the other, are the control
+      if ((phases s c).getLastD s).map (·.trace) = (MSt.send s c).map (·.trace) then
+        (some (s.step (.die c (cuts s c g))), "ok")
+      else (st, "bad-phases")
+    | _, _ => (st, "bad-op")
   | ["trace", i], some s =>
     match i.toNat?.bind (s[·]?) with
     | some l => (st, " ".intercalate (l.trace.map showPrim))
